@@ -72,6 +72,7 @@ func main() {
 	c.Assume("the store side parses shipped text with influxql.ParseExpr / ParseSource / ParseSortFields / hybridqp.ParseFields and decodes options, plans and chunks with the Unmarshal functions exercised here (read from processor_codec.go, logic_plan_codec.go, rpc_message.go)")
 	c.Assume("the sql node parses queries with the yacc parser exactly as httpd.Handler.getSqlQuery does, and the planner's condition is influxql.ConditionExpr(stmt.Condition) / fields are influxql.Reduce(field) (query/compile.go)")
 	c.Assume("texts rejected by a parser are outside the property's quantifier and only counted")
+	c.Assume("a decoded message must own its bytes: spdy hands Unmarshal a slice of a pooled receive buffer and frees it as soon as Unmarshal returns (BaseResponser.Apply on the client, Reactor after WarpRequester on the server; read from lib/spdy/mux.go, reactor.go, multiplexed_connection.go). Every codec round trip here decodes from such a buffer, which is then reused for a second frame (chunk, RemoteQuery) and filled with 0xA5 before the decoded object is compared; a change that appears only then is reported as <codec>:decoded-object-aliases-the-receive-buffer:<part>")
 
 	if c.ReplayIn != "" {
 		replay(c)
